@@ -1,4 +1,4 @@
-from specs.common import run, ASSUME_COMMON
+from specs.common import run, memcheck, ASSUME_COMMON
 
 # Floors are at most one third of the minimum seen over VERIF_SEED in {1,2,3,7,42,1000,65537,2^31-1} on the
 # unchanged tree.  composite_subsets_enumerated is not statistical: cases 0..102 walk the 206 ordered subsets
@@ -21,7 +21,8 @@ SPEC = {
     "runs": [run("e1-model", "c15_baggage", "asan", 5000, 400000, need_lib=False),
              # the shared propagator objects used by 2..8 threads at once (TSan + perturbation shim)
              run("e2-threads", "prop_threads", "tsan", 60, 3000, sq=2, st=8, need_lib=False, params={"prop": "C15"},
-                 sources=["harness/prop_threads.cc", "vf/shim/vf_runtime.cc"])],
+                 sources=["harness/prop_threads.cc", "vf/shim/vf_runtime.cc"]),
+             memcheck("c15_baggage", 400, 20000, need_lib=False)],
     "floors": {"quick": _Q, "thorough": _T},
     "engine": "E1 model-oracle",
     "technique": ("reference-model oracle in lock-step with the real Baggage / BaggagePropagator / CompositePropagator under "
